@@ -45,7 +45,7 @@ class C06(Config):
     partial_clauses = [
         "root_at_checkpoint_id == true root and witness validity (path of every mined unspent note applied to THAT NOTE'S OWN commitment, and its stored position == the commitment's position in the current chain; re-mined transactions at shifted positions included) are evaluated on the implementation (observed booleans); "
         "they rest on the shardtree crate and the SQLite ShardStore, which are not modelled",
-        "put_*_subtree_roots is modelled as the identity on the ledger; its effect on the cap is only observed through the root/witness clauses (histories start from birthday frontiers just below a shard end)",
+        "put_*_subtree_roots is modelled as the identity on the ledger; its effect on shards and cap is observed through the per-pool subtree-root getters (own pool returns the inserted roots, other pools unchanged, plain and transactional handle agree) and the root/witness clauses (histories start from birthday frontiers just below a shard end; every pool, both handles)",
         "rewind_to_chain_state: only the tree part is modelled (birthday resets and the scan queue are not)",
     ]
 
